@@ -184,6 +184,34 @@ static void scalar(mon::Rng& rng)
       load_case<T>("load-copy_and_verify_range-1", off, gs, v, [&] { return p.copy_and_verify_range([](std::unique_ptr<T[]> x) { return x[0]; }, 1); });
       load_case<T>("load-index0", off, gs, v, [&] { tainted<T, S> t = p[0]; return t.UNSAFE_unverified(); });
     }
+    // ---- hostile encodings: a bool cell of the sandbox can hold any byte; what reaches the application must be a valid bool
+    //      object (0 or 1) or the load must abort -- never an application bool whose byte is 2..255
+    if constexpr (std::is_same_v<T, bool>) {
+      for (unsigned hb : { 2u, 3u, 0x80u, 0xfeu, 0xffu }) {
+        auto judge = [&](const char* op, bool ab, unsigned char got) {
+          mon::evals();
+          if (!ab && got > 1) report(op, "bool", "invalid-bool-object-delivered", mon::fmt("sandbox cell at base+%llu holds byte 0x%02x: the application received a bool whose byte is 0x%02x (no abort)", (unsigned long long)off, hb, got));
+          else n_load_ok++;
+        };
+        R.mem()[off] = static_cast<unsigned char>(hb);
+        unsigned char got = 0;
+        mon::ctx("load/hostile-bool/load-to-tainted | off=%llu byte 0x%02x", (unsigned long long)off, hb);
+        bool ab = mon::aborts([&] { tainted<bool, S> t = *p; std::memcpy(&got, &t, 1); });
+        judge("load-to-tainted/hostile-encoding", ab, got);
+        got = 0;
+        mon::ctx("load/hostile-bool/copy_and_verify-volatile | off=%llu byte 0x%02x", (unsigned long long)off, hb);
+        ab = mon::aborts([&] { (*p).copy_and_verify([&](bool v) { std::memcpy(&got, &v, 1); return 0; }); });
+        judge("load-copy_and_verify-volatile/hostile-encoding", ab, got);
+        got = 0;
+        mon::ctx("load/hostile-bool/copy_and_verify-pointer | off=%llu byte 0x%02x", (unsigned long long)off, hb);
+        ab = mon::aborts([&] { p.copy_and_verify([&](std::unique_ptr<bool> v) { std::memcpy(&got, v.get(), 1); return 0; }); });
+        judge("load-copy_and_verify-pointer/hostile-encoding", ab, got);
+        got = 0;
+        mon::ctx("load/hostile-bool/copy_and_verify_range | off=%llu byte 0x%02x", (unsigned long long)off, hb);
+        ab = mon::aborts([&] { p.copy_and_verify_range([&](std::unique_ptr<bool[]> v) { std::memcpy(&got, v.get(), 1); return 0; }, 1); });
+        judge("load-copy_and_verify_range/hostile-encoding", ab, got);
+      }
+    }
     // ---- read-modify-write forms on integers and floats
     if constexpr (!std::is_enum_v<T> && !std::is_same_v<T, bool>) {
       for (T v : vs) {
